@@ -355,3 +355,96 @@ def _has_generic_shift(F, tps):
         if t['k'] == 'call' and 'fn' in t['f'] and t['f']['fn']['trait'] in ('std::ops::Shr', 'std::ops::Shl'):
             return True
     return False
+
+
+# ---------------------------------------------------------------- R-BITS
+
+BITS_FAMILY = {
+    'quadwt::QWaveletTree': (3, 2, ['C01']),
+    'quadwt::huffqwt::HuffQWaveletTree': (3, 2, ['C02']),
+    'binwt::WaveletTree': (1, 1, ['C03']),
+}
+
+
+def rule_BITS(FA):
+    """Every function of a tree that extracts the level fragment of a symbol / code (`(x >> shift) & m`) uses
+    the family's fragment mask (3 for quad trees, 1 for binary), moves a loop-carried shift by the fragment
+    width, and `get_unchecked` rebuilds the symbol by shifting the accumulator by the same width.  Builder,
+    rank, rank_prefetch (both phases), select and get are siblings over one level layout: a function that
+    deviates reads other bits than the builder wrote."""
+    out = []
+    for f in FA.lib_fns(include_closures=False):
+        base = f.get('_base')
+        if base not in BITS_FAMILY:
+            continue
+        mask, width, props = BITS_FAMILY[base]
+        props = list(props) + (['C09'] if 'prefetch' in f['name'] else [])
+        for spec in FA.specs(f):
+            F = FA.fn(f, spec)
+            F.dom()
+            masks = set()
+            amt_locals = set()
+            line = f['span']
+            for bi, b in enumerate(F.blocks):
+                if bi not in F.reach:
+                    continue
+                for s in b['s']:
+                    rv = s.get('rv')
+                    if not rv or rv['k'] != 'bin':
+                        continue
+                    op = rv['op'].replace('WithOverflow', '')
+                    if op == 'BitAnd':
+                        a = norm(F.operand_term(rv['a']))
+                        c = norm(F.operand_term(rv['b']))
+                        if a[0] == 'const':
+                            a, c = c, a
+                        x = a
+                        while isinstance(x, tuple) and x and x[0] in ('cast', 'as_'):
+                            x = x[2]
+                        if c[0] == 'const' and isinstance(x, tuple) and x and x[0] == 'bin' and x[1] == 'Shr' and x[3][0] != 'const':
+                            masks.add(c[1])
+                            line = s['line']
+                            for st in subterms(x[3]):
+                                if isinstance(st, tuple) and st and st[0] == 'unknown':
+                                    amt_locals.add(st[1])
+            steps = set()
+            for l, ds in F.defs.items():
+                nm = F.names.get(l)
+                if nm is None or nm not in amt_locals:
+                    continue
+                for d in ds:
+                    if d[0] in F.reach and d[1] == 'assign':
+                        t = norm(F.rvalue_term(d[2]))
+                        if t[0] == 'bin' and t[1] in ('Add', 'Sub'):
+                            for x in (t[2], t[3]):
+                                if x[0] == 'const':
+                                    steps.add(x[1])
+            acc = set()
+            if f['name'] == 'get_unchecked':
+                for bi, b in enumerate(F.blocks):
+                    if bi not in F.reach:
+                        continue
+                    for s in b['s']:
+                        rv = s.get('rv')
+                        if rv and rv['k'] == 'bin' and rv['op'].replace('WithOverflow', '') == 'Shl' and 'c' in rv['b'] and rv['b'].get('val') is not None:
+                            acc.add(int(rv['b']['val']))
+                    t = b['t']
+                    if t['k'] == 'call' and 'fn' in t['f'] and t['f']['fn']['trait'] == 'std::ops::Shl' and len(t['args']) == 2 and 'c' in t['args'][1] and t['args'][1].get('val') is not None:
+                        acc.add(int(t['args'][1]['val']))
+            if not masks and not acc:
+                continue
+            key = 'R-BITS|%s%s' % (fn_key(f), spec_key(spec))
+            problems = []
+            if masks and masks != {mask}:
+                problems.append('level fragment mask is %s, the family uses %d' % (sorted(masks), mask))
+            if steps and not steps <= {width}:
+                problems.append('loop-carried shift moves by %s, the fragment width is %d' % (sorted(steps), width))
+            if acc and not acc <= {width}:
+                problems.append('accumulator is shifted by %s per level, the fragment width is %d' % (sorted(acc), width))
+            if problems:
+                out.append(Inst('R-BITS', key, 'violation', line, '; '.join(problems) + ': this function reads other bits than the builder wrote', props,
+                                sample={'masks': sorted(masks), 'shift_steps': sorted(steps), 'accumulator_shifts': sorted(acc)}))
+            else:
+                out.append(Inst('R-BITS', key, 'ok', line, 'fragment mask %s, shift step %s, accumulator shift %s' % (sorted(masks), sorted(steps), sorted(acc)), props,
+                                sample={'masks': sorted(masks), 'shift_steps': sorted(steps), 'accumulator_shifts': sorted(acc)}))
+    return out
